@@ -205,7 +205,7 @@ def gen_case(src):
         values[nf(t)] = primes[i]
     # optionally: first single-word name is bound to a context that has an entry named like another word (a.b vs name `a.b`)
     kind = src.weighted([(3, "alone"), (5, "binop"), (2, "paren"), (2, "if"), (3, "for"), (2, "quant"), (3, "ctx"), (2, "fn"), (2, "args"),
-                         (2, "between"), (2, "in"), (2, "filter-index"), (2, "filter-ctx"), (3, "path-head"), (1, "path-chain"), (2, "call"), (5, "glue-probe"), (3, "bound-ctx")])
+                         (2, "between"), (2, "in"), (2, "filter-index"), (2, "filter-ctx"), (3, "path-head"), (1, "path-chain"), (2, "call"), (5, "glue-probe"), (3, "bound-ctx"), (4, "after-scope")])
     tb = T(src, words, names, values)
     extra_bind = []
     # bystanders: further bound names the expression never mentions, holding values of other shapes (empty / nested contexts, lists of
@@ -273,6 +273,47 @@ def gen_case(src):
         tb.labels.append(kind + ":multiword-var" if len(v) > 1 else kind)
         if len(v) > 1:
             tb.uses_family = True
+    elif kind == "after-scope":
+        # a name introduced by for / some / every / a function parameter / a context entry is known only INSIDE that construct: the same
+        # spelling used after it means what it meant before (the outer binding, or an operation on two bound names)
+        singles = [t for t in names if len(t) == 1]
+        (t1, n1), (t2, n2), (t3, n3) = tb.name(tb.pick()), tb.name(tb.pick()), tb.name(tb.pick())
+        if src.bool(0.5) or len(singles) < 2:
+            v = src.choice([t for t in names if isinstance(values[nf(t)], int)])
+            after_node = ["name", nf(v)]
+            tb.labels.append("after-scope:shadowed-binding")
+        else:
+            a, b = src.choice(singles), src.choice(singles)
+            op = src.choice(["-", "+", "*", "/"])
+            v = a + [op] + b
+            if nf(v) in tb.bound or glue(a, op, b, tb.bound) != "A":
+                v = src.choice([t for t in names if isinstance(values[nf(t)], int)])
+                after_node = ["name", nf(v)]
+                tb.labels.append("after-scope:shadowed-binding")
+            else:
+                after_node = ["arith", op, ["name", nf(a)], ["name", nf(b)]]
+                tb.labels.append("after-scope:operation-again")
+        tight = nf(v)               # the normal form: one blank between words, none around symbols
+        vt = tight if src.bool(0.6) else spell(src, v)
+        # an operator-joined spelling can only be declared where the grammar expects a new name (iteration variables)
+        form = src.choice(["every", "some", "for", "fn", "ctx"] if after_node[0] == "name" else ["every", "some", "for"])
+        if form in ("every", "some"):
+            inner = "%s %s in [%s, %s] satisfies (%s) > 0" % (form, vt, t1, t2, t3)
+            inner_node = [form, [[nf(v), ["list", [n1, n2]]]], ["cmp", ">", n3, ["num", "0"]]]
+        elif form == "for":
+            inner = "for %s in [%s, %s] return (%s)" % (vt, t1, t2, t3)
+            inner_node = ["for", [[nf(v), ["dl", ["list", [n1, n2]]]]], n3]
+        elif form == "fn":
+            inner = "(function(%s) (%s))(%s)" % (vt, t3, t1)
+            inner_node = ["call", ["fn", [[nf(v), None]], n3], [n1]]
+        else:
+            inner = "{%s: %s}" % (vt, t1)
+            inner_node = ["ctx", [[nf(v), n1]]]
+        tb.labels.append("after-scope:" + form)
+        after_text = tight if src.bool(0.6) else spell(src, v)
+        text = "[%s, %s]" % (inner, after_text)
+        node = ["list", [inner_node, after_node]]
+        tb.uses_family = True
     elif kind == "ctx":
         k1 = tb.local(decl=True)
         k2 = tb.local(extra={nf(k1)}, decl=True)
